@@ -98,3 +98,16 @@ level("C19",
       "(reaching definitions, helper inlining), the lexical-context scanner, the sanitiser adequacy argument.",
       "symbolic string provenance with lexical-context classification of holes (taint with sanitiser adequacy) + layout of string atoms",
       "DESIGN.md §4 C19")
+
+level("C16",
+      "Static decision for all option sets of: every option is defined, consumed and delivered (forward taint through "
+      "the Cli object's methods, attribute cells, dict keys and called callables) to its documented library parameter "
+      "without depending on other options; choices have handlers; converters attached to generator keywords are "
+      "total on the static types that reach them; run() executes the pipeline stages once each in order and writes "
+      "the very local it returns, with an explicit encoding; samples are accumulated in argument order with no skip.",
+      "Decided: OPTFLOW-1..5, SAME-1, STAGE-1, SEQ-1, ENC-1. The option->parameter table is the oracle (from the CLI "
+      "help/README). NOT decided: dict_lookup / iter_json_file semantics on data, textual equality of CLI and library "
+      "output on concrete inputs, order between -m and the deprecated -l. Trusted: taint propagation rules, argparse "
+      "destination derivation.",
+      "forward taint with reaching definitions and control-dependence checks; table agreement; CFG dominance for stage order",
+      "DESIGN.md §4 C16")
